@@ -85,3 +85,9 @@ check('C20', 'fault_enumeration', 'property-based plugin-set generation + enumer
       'placement - identical calls for every other plugin, delivered snapshots with the healthy decorations, all spans '
       'closed, all plugins shut down, normal return of start/shutdown are asserted.',
       'Quick samples up to 6 placements per scenario, thorough enumerates all placements of each scenario; plugin faults are Exception subclasses.')
+check('C16', 'exploration', 'grammar-based property testing with an independent reference renderer (differential), plus arbitrary template text',
+      'Templates from a grammar are rendered by an independent scanner (written from the statement, not string.Formatter) '
+      'in the frame\'s own scope and compared with the message the tracepoint logger receives, its tracepoint-id / '
+      'context-id arguments, the snapshot\'s log message and its LOG watch results (one per field, in order); arbitrary '
+      'brace/punctuation text is additionally thrown at the agent with the weaker "no exception, at most one message" oracle.',
+      'Expressions avoid format-reserved characters; values in fields have a working str().')
